@@ -28,7 +28,7 @@ SOURCES = [
 ]
 SOUND = {"zeroDefs": "r", "regCombTopos": True, "selCoversComb": True, "perChainSyms": True}
 N_CASES = {"quick": {"corpus_cfgs": 5, "synthetic": 110, "malformed": 14, "four_axis": 8, "cost_cap": 400, "time_cap": 60, "oracle_extra": 60},
-           "thorough": {"corpus_cfgs": 20, "synthetic": 800, "malformed": 80, "four_axis": 40, "cost_cap": 700, "time_cap": 120, "oracle_extra": 400}}
+           "thorough": {"corpus_cfgs": 25, "synthetic": 1200, "malformed": 100, "four_axis": 50, "cost_cap": 800, "time_cap": 120, "oracle_extra": 400}}
 
 
 # --------------------------------------------------------------------------- cases
@@ -157,6 +157,27 @@ def diff_answers(real: dict, lean: dict) -> dict:
     return out
 
 
+def reconcile_free(real: dict, lean: dict) -> tuple[dict, bool]:
+    """SymPy cancels chains that are exactly opposite (identical-particle swap x parity partner with prefactor -1 in
+    synthetic reactions): the model's free-symbol set is then a SUPERSET of the real one. Accepted iff every extra symbol
+    is a key of the real parameter_defaults / kinematic_variables (so C01 is not affected); counted in the evidence.
+    Symbols that the real expression has and the model has not are never accepted."""
+    if "free" not in real or "free" not in lean:
+        return lean, False
+    cancelled = False
+    out = dict(lean)
+    # a whole amplitude cancels to 0: it is a zero definition in the real model, a registered one in the model
+    rz, lz = {json.dumps(x) for x in real["zero"]}, {json.dumps(x) for x in lean["zero"]}
+    if rz != lz and lz <= rz and (rz - lz) <= {json.dumps(x) for x in lean["defs"]}:
+        out["zero"] = real["zero"]
+        cancelled = True
+    rs, ls = set(real["free"]), set(lean["free"])
+    if rs != ls and rs <= ls and (ls - rs) <= set(real["params"]) | set(real["kin"]):
+        out["free"] = real["free"]
+        cancelled = True
+    return out, cancelled
+
+
 class C01Property:
     prop_id = PROP_ID
     prop_modules = ["Ampverif.Props.C01"]
@@ -183,6 +204,10 @@ class C01Property:
                     chk.broken.append({"kind": "proof", "theorem": "<leanchecker>", "detail": (p.stdout + p.stderr)[-400:]})
             except subprocess.TimeoutExpired as e:
                 raise common.InfraError("leanchecker timed out") from e
+
+        ok_drv, log_drv = common.lake_build(["Ampverif.Drivers.C01Parse"])
+        if not ok_drv:
+            chk.broken_correspondence("lean driver modules do not build", log_drv[-600:])
 
         # ---- 2. which variant does the code implement?
         corpus = R.load_corpus()
@@ -273,6 +298,8 @@ class C01Property:
                                  "class": classify(f, cfg, d)})
             if lean_out:
                 lean = R.parse_reply(lean_out[idx])
+                lean, cancelled = reconcile_free(real, lean)
+                dist["exact_cancellations"] = dist.get("exact_cancellations", 0) + int(cancelled)
                 if lean != real:
                     mismatches += 1
                     if mismatches <= 3:
@@ -385,6 +412,9 @@ def replay(rep: dict) -> int:
     real, model = R.real_answer(c["reaction"], c["cfg"])
     bad = R.oracle(model) if model is not None else []
     lean = R.parse_reply(common.lean_run(DRIVER, R.encode_case(variant, c["reaction"], c["cfg"]) + "\n").strip().split("\n")[0])
+    lean, cancelled = reconcile_free(real, lean)
+    if cancelled:
+        print("note: the real expression has fewer free symbols than the model (exact cancellation of chains); accepted")
     print("replayed:", json.dumps({"cfg": c["cfg"], "reaction": R.describe(c["reaction"]), "oracle_failures": bad[:6],
                                    "model_vs_real": "agree" if lean == real else diff_answers(real, lean) if "error" not in real and "error" not in lean and "bad" not in lean else {"real": str(real)[:200], "lean": str(lean)[:200]}},
                                   indent=1, default=str))
@@ -420,6 +450,9 @@ MANIFEST = {
         "the source only through the sampled correspondence (8 corpus reactions incl. partial helicity sets + synthetic "
         "ReactionInfo objects x random configurations per run), not by translation. Executed, not modelled: qrules "
         "(combinatorics, topologies), SymPy free_symbols, PoolSum.evaluate. Dynamics are assigned by name only; custom "
-        "builders must honour the stated contract (parameters named c_{...})."
+        "builders must honour the stated contract (parameters named c_{...}). The model's free-symbol set is an upper bound: "
+        "when SymPy cancels exactly opposite chains (synthetic identical-particle x parity-partner reactions) the real "
+        "expression has fewer symbols; such cases are accepted only if every extra symbol is a key of the real "
+        "parameter_defaults / kinematic_variables and are counted (exact_cancellations) in the evidence."
     ),
 }
